@@ -53,6 +53,7 @@ func main() {
 	verbose := flag.Bool("v", false, "print every obligation")
 	manifest := flag.Bool("manifest", false, "regenerate MANIFEST.json from the rule registry")
 	seeded := flag.Bool("seeded", false, "apply every seeded/*/patch.diff to a scratch copy and expect the property's checks to report it")
+	refactors := flag.Bool("refactors", false, "apply every refactors/*/*.diff (behaviour-preserving) to a scratch copy and expect every rule to stay silent")
 	selftest := flag.Bool("selftest", false, "run the checker's own must-fire / must-stay-silent corpus")
 	flag.Parse()
 
@@ -85,6 +86,8 @@ func main() {
 		os.Exit(runManifest())
 	case *seeded:
 		os.Exit(runSeeded(*repo, flag.Args()))
+	case *refactors:
+		os.Exit(runRefactors(*repo, flag.Args()))
 	case *selftest:
 		os.Exit(runSelftest(*repo, flag.Args()))
 	case *list:
